@@ -322,8 +322,8 @@ def r4(ctx):
 
 
 def r_enum(ctx):
-    from .common import enum_identity
-    enum_identity(ctx, "C10.R5", ('server', 'context', 'connection', 'twisted'))
+    from .common import repo_idioms
+    repo_idioms(ctx, "C10.R5", ('server', 'context', 'connection', 'twisted'))
 
 
 RULES = [("C10.R1", r1), ("C10.R2", r2), ("C10.R3", r3), ("C10.R4", r4), ("C10.R5", r_enum)]
